@@ -95,7 +95,7 @@ def native_add_replay(model):
 def native_sample_replay(model):
     """R1: per-environment buffers with different fill levels, stacked as the off-policy learner stacks them, sampled
     jointly with the real sample(); every returned row must be a stored transition with all fields intact, no duplicates."""
-    for (C, fills) in ((3, [1, 3]), (4, [0, 2, 6]), (2, [2, 1]), (5, [3])):
+    for (C, fills) in ((3, [1, 3]), (4, [0, 2, 6]), (2, [2, 1]), (5, [3]), (4, [6, 3, 1, 4])):
         lanes = []
         stored = set()
         for e, nfill in enumerate(fills):
@@ -107,8 +107,7 @@ def native_sample_replay(model):
                 stored.add(float(100 * (e + 1) + k + 1))
             lanes.append(rb)
         buf = lanes[0] if len(lanes) == 1 else jax.tree.map(lambda *xs: jnp.stack(xs), *lanes)
-        b = len(stored)
-        for seed in range(6):
+        for b, seed in [(bb, sd_) for bb in sorted({len(stored), min(len(stored), C + 1), max(1, len(stored) - 1)}) for sd_ in range(6)]:
             batch = buf.sample(b, key=jax.random.key(seed))
             tags = [float(x) for x in np.asarray(batch.rewards)]
             ok = all(t in stored for t in tags) and len(set(tags)) == len(tags)
@@ -198,9 +197,18 @@ def choice_stub(key, a, shape=(), replace=True, p=None, axis=0, mode=None):
 
 def unit_sample(vectorised):
     def unit(S):
+        # regimes of the batch size relative to the per-buffer capacity (Python-level comparisons of sizes must be decidable per regime): a single buffer can only serve B <= C;
+        # jointly sampled buffers also serve C < B <= N*C
+        for regime, cons in ((("B<=C", ["B <= C"]), ("B>C", ["B >= C + 1"])) if vectorised else (("B<=C", ["B <= C"]),)):
+            _sample_regime(S, vectorised, regime, cons)
+    return unit
+
+
+def _sample_regime(S, vectorised, regime, cons):
+    if True:
         S.under_contract(F_SAMPLE, F_FLAT)
         S.assume_ids("A-RNG choice contract")
-        C, N, B = symbolic_dims("C, N, B")
+        C, N, B = symbolic_dims("C, N, B", constraints=cons)
         ctx = Ctx()
         Cz, Bz = ctx.dim(C), ctx.dim(B)
         Nz = ctx.dim(N) if vectorised else None
@@ -210,8 +218,8 @@ def unit_sample(vectorised):
         with extract.patched((jr, "choice", choice_stub)):
             batch = run(ctx, lambda b, kk: b.sample(B, key=kk), rb, k)
         calls = [c for c in ctx.calls if c.name.startswith("choice[")]
-        tag = "vec" if vectorised else "single"
-        S.fact(f"{tag}/one-choice-without-replacement", len(calls) == 1 and calls[0].name == "choice[replace=False,p=yes]", function=F_SAMPLE,
+        tag = ("vec" if vectorised else "single") + ("" if regime == "B<=C" else f"[{regime}]")
+        S.fact(f"{tag}/one-choice-without-replacement", len(calls) == 1 and calls[0].name == "choice[replace=False,p=yes]", function=F_SAMPLE, replay=native_sample_replay,
                what="sample draws its indices with one jax.random.choice(..., replace=False, p=probs)", detail=[c.name for c in calls])
         if len(calls) != 1:
             return
@@ -258,7 +266,6 @@ def unit_sample(vectorised):
         S.prove(f"{tag}/position-and-size-passed-through", ctx, kit.tree_eq(batch.position, rb.position) if not vectorised else True, function=F_SAMPLE,
                 what="scalar leaves are passed through")
         S.samples.append(dict(config=tag, choice=c.name, N="symbolic" if vectorised else 1, C="symbolic", B="symbolic"))
-    return unit
 
 
 def unit_flatten(S):
